@@ -151,7 +151,8 @@ def bind_domain(idx: Index, rel: str, rule_fns: List[FuncInfo], prim_params: Ite
                             cn = call_name(x) or ""
                             if _CANON_CALL.search(cn):
                                 canonical = True
-                            if cn.split(".")[-1] not in ("int", "tuple", "list", "index", "asarray", "bool"):
+                            # dict plumbing (`given = dict(zip(names, rest)); axis = given.get("axis", axis)`) hands values on unchanged
+                            if cn.split(".")[-1] not in ("int", "tuple", "list", "index", "asarray", "bool", "get", "pop", "dict", "zip"):
                                 plain = False
                         if isinstance(x, (ast.BinOp, ast.Subscript, ast.ListComp, ast.GeneratorExp)) and not (isinstance(x, ast.Subscript)):
                             if isinstance(x, ast.BinOp):
